@@ -12,10 +12,16 @@ from checks import sshdfam
 
 def run(ctx):
     gen = ctx.tlc("ReasmGen", "ReasmGen.cfg", workers=1, timeout=3000, name="gen",
-                  overrides={"MaxEvents": "2", "Rich": "TRUE"} if ctx.quick else {"MaxEvents": "3", "Rich": "FALSE"})
+                  overrides={"MaxEvents": "2", "Rich": '"rich"'} if ctx.quick else {"MaxEvents": "3", "Rich": '"plain"'})
     scs = vlib.tlc_prints(gen["stdout"], "SCEN")
     if len(scs) < 500:
         raise Infra("too few scenarios: %d" % len(scs))
+    if ctx.quick:
+        # output failures with more events in flight (three events; a sample): what Read's deferred Close() flushes
+        gen3 = ctx.tlc("ReasmGen", "ReasmGen.cfg", workers=1, timeout=3000, name="gen3",
+                       overrides={"MinEvents": "3", "MaxEvents": "3", "Rich": '"min"', "FaultKinds": '{"none", "writefail", "writefailp"}'})
+        sc3 = [s for s in vlib.tlc_prints(gen3["stdout"], "SCEN") if len(s["shapes"]) == 3]
+        scs += random.Random(ctx.seed).sample(sc3, min(len(sc3), 600))
     if len(scs) > 40000:
         rnd = random.Random(ctx.seed)
         scs = rnd.sample(scs, 40000)
